@@ -145,8 +145,13 @@ def nodup : List Str → Bool
   | [] => true
   | x :: xs => !xs.contains x && nodup xs
 
+/-- no state, at any nesting level, is named by the empty string: the engine identifies a state by its name and takes
+an event whose state name is empty for the start of a new execution, so such a state could never be entered (a fan-out
+whose branch has `StartAt: ""` is refused as an Illegal State Machine) -/
+def namesOk (m : Json) : Bool := !(namesIn m.size m).contains []
+
 /-- the definition is well-formed (fuel: the size of the value bounds its nesting depth) -/
-def WF (m : Json) : Bool := wfBranch m.size m && nodup (namesIn m.size m) && timeoutOk m
+def WF (m : Json) : Bool := wfBranch m.size m && nodup (namesIn m.size m) && timeoutOk m && namesOk m
 
 /-! ### problems -/
 
